@@ -26,114 +26,148 @@ type c01Point struct {
 }
 
 type c01Trace struct {
+	final  func()
 	points []c01Point
 	sites  []string // map-range sites that saw >1 keys since the previous point (diagnosis)
 }
 
-func c01RunReplica(r *simrt.Run, policy int, seed uint64, main bool) (tr *c01Trace, cfg SimCfg) {
+func c01RunReplica(r *simrt.Run, policy int, seed uint64, main bool) (tr *c01Trace) {
 	simrt.SetMapOrder(policy, seed)
 	defer simrt.SetMapOrder(simrt.MapOrderNative, 0)
 	simrt.MapOrderSites()
 	tr = &c01Trace{}
-	// half of the runs use the rich world of C02: a spec with add-ons and extensions, providers
-	// with varied endpoints, plan/project policies with (Mixed) chain requirements and selected
-	// providers, so that the pairing filters and slot assignment have several keys to iterate over
-	rich := r.Chance("cfg", 1, 2)
-	w8 := baseWeights()
-	if rich {
-		for k, v := range map[string]int{"c02stake": 8, "c02policy": 10, "c02plan": 3, "c02freeze": 2, "c02epochs": 2} {
-			w8[k] = v
+	// the history comes from a drawn theme (see props_basic.go): the generic generator, its rich
+	// variant (C02's world: add-ons, extensions, Mixed requirements, selected providers, so that the
+	// pairing filters and slot assignment have several keys to iterate over), or the generator of
+	// another chain property (complaints and jailing, conflicts, governance, IPRPC, slashes ...)
+	// whose own oracles are ignored here
+	nThemes := len(themes) + 3
+	ti := r.Draw("cfg", nThemes)
+	worldInitHooks = append(worldInitHooks, func(w *World) {
+		add := func(label string) {
+			tr.points = append(tr.points, c01Point{label, w.Digest()})
+			sites := simrt.MapOrderSites()
+			ks := make([]string, 0, len(sites))
+			for k := range sites {
+				ks = append(ks, k)
+			}
+			sort.Strings(ks)
+			tr.sites = append(tr.sites, strings.Join(ks, ","))
 		}
-	}
-	cfg = mkCfg(r, w8, 50, 200)
-	s := NewSim(r, cfg)
-	if rich {
-		spec := c02RichSpec(r)
-		s.K.Spec.SetSpec(s.Ctx, spec)
-		s.Specs = append(s.Specs, spec)
-	}
-	add := func(label string) {
-		tr.points = append(tr.points, c01Point{label, s.Digest()})
-		sites := simrt.MapOrderSites()
-		ks := make([]string, 0, len(sites))
-		for k := range sites {
-			ks = append(ks, k)
-		}
-		sort.Strings(ks)
-		tr.sites = append(tr.sites, strings.Join(ks, ","))
-	}
-	lastEpoch := uint64(0)
-	s.AfterTx = append(s.AfterTx, func(w *World, tx *TxResult) {
-		out := "ok"
-		if tx.Err != nil {
-			out = "rejected"
-		}
-		add(fmt.Sprintf("h=%d tx %s %s", w.Height(), tx.Name, out))
-	})
-	blocks := 0
-	s.AfterBlock = append(s.AfterBlock, func(w *World) {
-		blocks++
-		ep := s.EpochStart()
-		if ep != lastEpoch {
-			lastEpoch = ep
-			// pairing of every developer key for every spec, as sets
-			var sb strings.Builder
-			for _, c := range s.Consumers {
-				keys := append([]*Account{c.Acc}, c.Devs...)
-				for _, k := range keys {
-					for _, sp := range s.Specs {
-						res, err := s.K.Pairing.GetPairing(sdk.WrapSDKContext(w.Ctx), &pairingtypes.QueryGetPairingRequest{ChainID: sp.Index, Client: k.Addr})
+		tr.final = func() { add("final") }
+		lastEpoch := uint64(0)
+		w.AfterTx = append(w.AfterTx, func(w *World, tx *TxResult) {
+			out := "ok"
+			if tx.Err != nil {
+				out = "rejected"
+			}
+			add(fmt.Sprintf("h=%d tx %s %s", w.Height(), tx.Name, out))
+		})
+		blocks := 0
+		w.AfterBlock = append(w.AfterBlock, func(w *World) {
+			blocks++
+			ep := w.EpochStart()
+			if ep != lastEpoch {
+				lastEpoch = ep
+				// pairing of every account (consumers, developer keys; others have none) for every spec, as sets
+				var sb strings.Builder
+				names := make([]string, 0, len(w.Accts))
+				for n := range w.Accts {
+					names = append(names, n)
+				}
+				sort.Strings(names)
+				specs := w.K.Spec.GetAllSpec(w.Ctx)
+				for _, n := range names {
+					k := w.Accts[n]
+					for _, sp := range specs {
+						res, err := w.K.Pairing.GetPairing(sdk.WrapSDKContext(w.Ctx), &pairingtypes.QueryGetPairingRequest{ChainID: sp.Index, Client: k.Addr})
 						if err != nil {
 							continue
 						}
-						var names []string
+						var ps []string
 						for _, p := range res.Providers {
-							names = append(names, w.NameOf(p.Address))
+							ps = append(ps, w.NameOf(p.Address))
 						}
-						sort.Strings(names)
-						fmt.Fprintf(&sb, "%s/%s=%s;", k.Name, sp.Index, strings.Join(names, "+"))
-						if main && len(names) > 0 {
+						sort.Strings(ps)
+						fmt.Fprintf(&sb, "%s/%s=%s;", n, sp.Index, strings.Join(ps, "+"))
+						if main && len(ps) > 0 {
 							r.Probe("pairing_compared")
 						}
 					}
 				}
+				add(fmt.Sprintf("h=%d epoch %d pairing {%s}", w.Height(), ep, sb.String()))
+			} else if blocks%7 == 0 {
+				add(fmt.Sprintf("h=%d block", w.Height()))
 			}
-			add(fmt.Sprintf("h=%d epoch %d pairing {%s}", w.Height(), ep, sb.String()))
-		} else if blocks%7 == 0 {
-			add(fmt.Sprintf("h=%d block", w.Height()))
-		}
+		})
 	})
-	if rich {
+	defer func() { worldInitHooks = nil }()
+	defer func() {
+		// a theme generator may stop early (its own oracle, a halted chain): the trace so far is
+		// still compared, the replicas must stop at the same point
+		if p := recover(); p != nil {
+			r.Recover(p)
+			tr.points = append(tr.points, c01Point{"generator stopped", ""})
+			tr.sites = append(tr.sites, "")
+		}
+	}()
+	if ti >= len(themes) || themes[ti].fn == nil {
+		rich := ti >= len(themes)
 		if main {
-			r.Probe("c01_rich_world")
+			if rich {
+				r.Probe("theme_generic-rich")
+			} else {
+				r.Probe("theme_generic")
+			}
 		}
-		for i := 0; i < 1+r.Draw("ops", 2); i++ {
-			r.Step()
-			s.opC02Plan()
+		w8 := baseWeights()
+		if rich {
+			for k, v := range map[string]int{"c02stake": 8, "c02policy": 10, "c02plan": 3, "c02freeze": 2, "c02epochs": 2, "c02complain": 4} {
+				w8[k] = v
+			}
 		}
-		for i := 0; i < 3+r.Draw("ops", 2*len(s.Providers)); i++ {
-			r.Step()
-			s.opC02Stake()
+		cfg := mkCfg(r, w8, 50, 200)
+		s := NewSim(r, cfg)
+		if rich {
+			spec := c02RichSpec(r)
+			s.K.Spec.SetSpec(s.Ctx, spec)
+			s.Specs = append(s.Specs, spec)
+			for i := 0; i < 1+r.Draw("ops", 2); i++ {
+				r.Step()
+				s.opC02Plan()
+			}
+			for i := 0; i < 3+r.Draw("ops", 2*len(s.Providers)); i++ {
+				r.Step()
+				s.opC02Stake()
+			}
+			for i := 0; i < len(s.Consumers); i++ {
+				r.Step()
+				s.OpBuy()
+				r.Step()
+				s.opC02Policy()
+			}
 		}
-		for i := 0; i < len(s.Consumers); i++ {
-			r.Step()
-			s.OpBuy()
-			r.Step()
-			s.opC02Policy()
+		s.RunHistory()
+	} else {
+		if main {
+			r.Probe("theme_" + themes[ti].name)
 		}
+		r.OnlyClasses = map[string]bool{"replicas-diverge": true}
+		themes[ti].fn(r)
 	}
-	s.RunHistory()
-	add("final")
-	return tr, cfg
+	if tr.final != nil {
+		tr.final()
+	}
+	return tr
 }
 
 func runC01(r *simrt.Run) {
 	shuffleSeed := r.Draw64("cfg")
-	base, _ := c01RunReplica(r, simrt.MapOrderSorted, 0, true)
+	base := c01RunReplica(r, simrt.MapOrderSorted, 0, true)
 	for i, pol := range []int{simrt.MapOrderReversed, simrt.MapOrderShuffled} {
 		rep := r.Replica()
 		rep.Draw64("cfg") // consume the shuffle seed like the main run did
-		other, _ := c01RunReplica(rep, pol, shuffleSeed+uint64(i), false)
+		other := c01RunReplica(rep, pol, shuffleSeed+uint64(i), false)
 		name := []string{"reversed", "shuffled"}[i]
 		n := len(base.points)
 		if len(other.points) < n {
@@ -170,9 +204,9 @@ func runC01(r *simrt.Run) {
 func init() {
 	simrt.Register("C01", &simrt.PropSpec{Fn: runC01,
 		NonTrivial: func(r *simrt.Run) bool {
-			return r.OKOps() >= 8 && r.Ops["relay:ok"] >= 1 && r.Probes["map_range_with_several_keys"] > 0 && r.Probes["pairing_compared"] > 0
+			return r.OKOps() >= 8 && r.Probes["map_range_with_several_keys"] > 0 && r.Probes["pairing_compared"] > 0
 		},
-		Rule:    "the same tape-generated chain history (stakes, delegations, subscriptions, projects, policies, relay payments with QoS, epochs, months, clock faults) is executed by three replicas whose map ranges in x/ and utils/ (type-driven rewrite through the build overlay) run in sorted, reversed and per-loop shuffled key order; digests of all KV stores + bank after every transaction and at sampled blocks, and pairing sets of every developer key x spec at every epoch start, must be identical. Non-trivial = >=8 accepted operations incl. a paid relay, at least one map range with several keys executed and at least one non-empty pairing compared; distinct = (op,outcome,fault) sequence hash",
+		Rule:    "the same tape-generated chain history is executed by three replicas whose map ranges in x/ and utils/ (type-driven rewrite through the build overlay) run in sorted, reversed and per-loop shuffled key order; the history comes from a drawn theme: the generic generator (stakes, delegations, subscriptions, projects, policies, relay payments with QoS, epochs, months, clock faults), its rich variant (C02's world: add-ons, extensions, Mixed requirements, selected providers, complaints) or the generator of another chain property (C02-C08, C10-C13, C16-C24, C42; their own oracles are ignored); digests of all KV stores + bank after every transaction and at sampled blocks, and pairing sets of every account x spec at every epoch start, must be identical. Non-trivial = >=8 accepted operations, at least one map range with several keys executed and at least one non-empty pairing compared; distinct = (op,outcome,fault) sequence hash",
 		Real:    chainReal, Stubbed: chainStub,
 		Assume:  append([]string{"only map ranges inside the lava module's x/ and utils/ packages are permuted (cosmos-sdk and other dependencies are not instrumented)", "keepers spawn no goroutines on transaction/block paths (census by tools/maporder run: none in x/ outside generated gateways)"}, chainAssume...),
 	})
